@@ -108,8 +108,26 @@ def gen():
         raise F.FactError("new_user no longer passes (num_left, num_right) to set_max_conn_sizes")
     cb = F.fn_body(t, "compile", rel)
     order = [cb.find(x) for x in ("self.check_if_resolved()?", "self.lexicon.validate_entries()?", "self.header.write_to(w)?", "self.write_grammar(w)?", "self.write_lexicon(w, written)?")]
+    build_bad = []
     if -1 in order or order != sorted(order):
-        raise F.FactError("DictBuilder::compile: resolved-check / validate / header / grammar / lexicon order not recognised")
+        # kept out of FactError on purpose: the model still builds (for compile as it was written for) and the differential
+        # run looks for a history on which the changed compile and the model differ
+        build_bad.append("DictBuilder::compile is no longer: check_if_resolved, validate_entries (unconditionally), header, grammar, lexicon")
+    rcb = F.fn_body(t, "read_conn", rel)
+    i_set = rcb.find("set_max_conn_sizes(")
+    m_early = re.search(r"\}\s*\?\s*;", rcb[:i_set]) if i_set >= 0 else None
+    m_late = re.search(r"\bresult\s*\?\s*;", rcb[i_set:]) if i_set >= 0 else None
+    if i_set < 0 or (m_early is None) == (m_late is None):
+        build_bad.append("DictBuilder::read_conn: where the read error is propagated relative to set_max_conn_sizes was not recognised")
+    out.append("(* read_conn hands the buffer's dimensions to the lexicon even when reading failed (the buffer keeps new dimensions) *)\n")
+    out.append("Definition conn_limits_follow_on_error : bool := %s.\n" % ("true" if (i_set >= 0 and m_late is not None and m_early is None) else "false"))
+    fixed_user = re.search(r"if\s+!self\.user\s*\{\s*self\.lexicon\s*\.set_max_conn_sizes\(", rcb) is not None
+    out.append("(* ... but only for system dictionaries: a user dictionary keeps the dimensions of its system dictionary as limits *)\n")
+    out.append("Definition conn_limits_fixed_for_user : bool := %s.\n" % ("true" if fixed_user else "false"))
+    rlb = F.fn_body(t, "read_lexicon", rel)
+    out.append("(* read_lexicon clears the `resolved` flag (rows read after resolve() may carry unresolved split units) *)\n")
+    out.append("Definition read_lexicon_clears_resolved : bool := %s.\n" % ("true" if re.search(r"self\.resolved\s*=\s*false\s*;", rlb) else "false"))
+    out.append("Definition build_unrecognised : list string := [ %s ].\n" % "; ".join('"%s"' % x for x in build_bad))
     for name in ("MAX_ARRAY_LEN", "MAX_DIC_STRING_LEN", "MAX_POS_IDS"):
         env = {"MAX_POS_IDS": F.find_const(rel, "MAX_POS_IDS")}
         out.append("Definition %s : Z := %s.\n" % (name, F.coq_int(F.find_const(rel, name, env), "Z")))
@@ -203,6 +221,54 @@ def gen():
             elif allowed_calls[fld] is not None and meth not in allowed_calls[fld]:
                 mutated.append("mod.rs:%s calls self.%s.%s" % (fn, fld, meth))
     out.append("(* builder state (other than the reporter) that DictBuilder::compile or its callees change *)\nDefinition compile_mutated_state : list string := [ %s ].\n" % "; ".join('"%s"' % x for x in sorted(set(mutated))))
+    # ---- dic/header.rs: Header::write_to (compile writes it first and uses the returned size as the base of all offsets)
+    rel = "sudachi/src/dic/header.rs"
+    ht = no_tests(F.strip_comments(F.src(rel)))
+    dsz = F.find_const(rel, "DESCRIPTION_SIZE")
+    ssz = F.find_const(rel, "STORAGE_SIZE", {"DESCRIPTION_SIZE": dsz})
+    out.append("Definition HEADER_DESCRIPTION_SIZE : Z := %s.\nDefinition HEADER_STORAGE_SIZE : Z := %s.\n" % (F.coq_int(dsz, "Z"), F.coq_int(ssz, "Z")))
+    hb = F.fn_body(ht, "write_to", rel)
+    hbad = []
+    # the guard: which length of the description is compared, how, with what
+    m = re.search(r"if\s+self\.description\.(len\(\)|chars\(\)\.count\(\))\s*(<=|<|>=|>)\s*Header::DESCRIPTION_SIZE\s*\{\s*return\s+Err", hb)
+    if m:
+        measure, op = ("true" if m.group(1) == "len()" else "false"), G.CMP[m.group(2)]
+    else:
+        hbad.append("Header::write_to: the description guard was not recognised")
+        measure, op = "true", "CGt"
+    out.append("(* error iff  <length of the description> CMP DESCRIPTION_SIZE; the length is in bytes (true) or in characters (false) *)\n")
+    out.append("Definition header_guard_in_bytes : bool := %s.\nDefinition header_guard : guard := mkG CastNone %s (OConst %s).\n" % (measure, op, F.coq_int(dsz, "Z")))
+    order = [hb.find(x) for x in ("w.write_all(&self.version.to_u64().to_le_bytes())?", "w.write_all(&self.create_time.to_le_bytes())?", "w.write_all(&self.description.as_bytes())?")]
+    if -1 in order or order != sorted(order):
+        hbad.append("Header::write_to: version / create_time / description are no longer written in this order")
+    # the padding: exactly DESCRIPTION_SIZE - len zero bytes (a subtraction that cannot be negative after the guard), or a clamped form
+    if re.search(r"for\s+_\s+in\s+0\.\.Header::DESCRIPTION_SIZE\s*-\s*self\.description\.len\(\)\s*\{\s*w\.write_all\(&\[0\]\)\?;\s*\}", hb):
+        pad = "true"
+    elif re.search(r"\.min\(Header::DESCRIPTION_SIZE\)|saturating_sub", hb):
+        pad = "false"
+    else:
+        pad = "true"
+        hbad.append("Header::write_to: the padding of the description was not recognised")
+    out.append("(* the padding is DESCRIPTION_SIZE - len(description bytes) zero bytes by plain subtraction (true) or clamped at zero (false) *)\nDefinition header_padding_exact : bool := %s.\n" % pad)
+    if not re.search(r"Ok\(Header::STORAGE_SIZE\)\s*$", hb.strip()):
+        hbad.append("Header::write_to no longer returns Header::STORAGE_SIZE")
+    pb = F.fn_body(ht, "description_parser", rel)
+    if not re.search(r"take\(Header::DESCRIPTION_SIZE\)\(input\)\?", pb) or "nul_terminated_str_from_slice(description_bytes)" not in pb:
+        hbad.append("description_parser is no longer take(DESCRIPTION_SIZE) + nul_terminated_str_from_slice")
+    if not re.search(r"tuple\(\(le_u64,\s*le_u64,\s*description_parser\)\)", F.fn_body(ht, "header_parser", rel)):
+        hbad.append("header_parser is no longer (le_u64, le_u64, description_parser)")
+    cbm = F.fn_body(no_tests(F.strip_comments(F.src(BUILD + "mod.rs"))), "compile", BUILD + "mod.rs")
+    if not re.search(r"let\s+mut\s+written\s*=\s*self\.header\.write_to\(w\)\?;\s*written\s*\+=\s*self\.write_grammar\(w\)\?;\s*self\.write_lexicon\(w,\s*written\)\?;", cbm):
+        hbad.append("compile no longer feeds the size returned by header.write_to into the offsets")
+    vers = {}
+    for name in ("SYSTEM_DICT_VERSION_2", "USER_DICT_VERSION_3"):
+        vers[name] = F.find_const(rel, name)
+        out.append("Definition %s : N := %s.\n" % (name, F.coq_int(vers[name])))
+    bm = no_tests(F.strip_comments(F.src(BUILD + "mod.rs")))
+    su = F.fn_body(bm, "set_user", BUILD + "mod.rs")
+    if not re.search(r"if\s+user\s*\{\s*self\.header\.version\s*=\s*HeaderVersion::UserDict\(UserDictVersion::Version3\)\s*\}\s*else\s*\{\s*self\.header\.version\s*=\s*HeaderVersion::SystemDict\(SystemDictVersion::Version2\)", su):
+        hbad.append("set_user no longer selects UserDict V3 / SystemDict V2")
+    out.append("Definition header_unrecognised : list string := [ %s ].\n" % "; ".join('"%s"' % x for x in hbad))
     # ---- index.rs: a lexicon without indexed entries
     rel = BUILD + "index.rs"
     t = no_tests(F.strip_comments(F.src(rel)))
